@@ -12,12 +12,21 @@
      L lead gaps trail comment pre                   (gaps k,k,..|-, pre = filler;filler.. or -)
      N 0|1           final newline
      P k1,k2,..|-    permutation code
-     GO   ->  RENDER xhex / DENOTE poly / PARSE result / PARSESTR result
+     GO   ->  RENDER xhex / DENOTE poly / PARSE result / PARSESTR result / OUTCOME class refine
+                (class of parse_outcome on the rendered text: v3 | v2:poly | v2:user | v2:err:<exit> | empty;
+                 refine = 1 iff outcome_forget (parse_outcome t) = parse t and the same for parse_string)
    Other commands:
      TEXT xhex   ->  PARSE result / PARSESTR result        (model parsers on arbitrary text)
      DECRAT xhex ->  EQ xhex|~ / RAW num den / VAL num den|~   (mps_utils_build_equivalent_rational_string model,
                                                              what set_coefficient_s stores, its value)
      DECVAL xhex ->  VAL num den|~                          (decimal_value)
+     OUTCOME xhex -> OUT class [result] / OUTSTR class [result]   (parse_outcome / parse_string_outcome, the 2.x
+                                                             reader statement by statement with its error exit)
+     ERS xhex    ->  ERS ~ | ERS xhex exp neg ok / ERSVAL num den|~ / ASM xhex|~
+                     (build_equivalent_rational_string of inline-poly-parser.c: string, exponent, sign, clean
+                      exponent; what the triple denotes; utils_assemble of it = the utils.c result)
+     WITHIN bits sn sd wn wd -> WITHIN 0|1                  (the property's predicate |s-w| <= 2^-bits |w|, decimal integers)
+     STORE mpfbits bits wn wd -> STORE num den ok           (model store into an mpf of mpfbits bits, and the predicate on it)
    texts are "x" ^ hex; integers in results are hexadecimal with sign. *)
 open Polfile
 
@@ -109,6 +118,27 @@ let show_result = function
       (List.length p.p_coeffs) (show_coeffs p.p_coeffs)
       (List.length p.p_bcoeffs) (show_coeffs p.p_bcoeffs)
 
+let v2_error_name = function
+  | V2E_no_token -> "no_token" | V2E_data_type -> "data_type" | V2E_data_structure -> "data_structure"
+  | V2E_coeff_type -> "coeff_type" | V2E_precision -> "precision" | V2E_degree -> "degree"
+  | V2E_coefficients -> "coefficients"
+
+let outcome_class = function
+  | O_v3 _ -> "v3"
+  | O_empty -> "empty"
+  | O_v2 (V2_poly _) -> "v2:poly"
+  | O_v2 (V2_user _) -> "v2:user"
+  | O_v2 (V2_error e) -> "v2:err:" ^ v2_error_name e
+
+let show_outcome o =
+  outcome_class o ^ (match o with
+      | O_v3 r -> " " ^ show_result r
+      | O_v2 (V2_poly p) -> " " ^ show_result (Poly p)
+      | O_v2 (V2_user n) -> " " ^ hex_of_z n
+      | _ -> "")
+
+let q_of_dec n d = { qnum = z_of_dec n; qden = pos_of_dec d }
+
 (* current description *)
 let d_head = ref (false, KMonomial, O, false, TFloat, false, None)
 let terms = ref [] and bterms = ref []
@@ -161,7 +191,31 @@ let () =
          print_endline ("RENDER " ^ x_of_text t);
          print_endline ("DENOTE " ^ show_result (Poly (denote d)));
          print_endline ("PARSE " ^ show_result (parse t));
-         print_endline ("PARSESTR " ^ show_result (parse_string t))
+         print_endline ("PARSESTR " ^ show_result (parse_string t));
+         let o = parse_outcome t in
+         let ok = (outcome_forget o = parse t) && (outcome_forget (parse_string_outcome t) = parse_string t) in
+         print_endline ("OUTCOME " ^ outcome_class o ^ " " ^ (if ok then "1" else "0"))
+       | ["OUTCOME"; x] ->
+         let t = text_of_x x in
+         print_endline ("OUT " ^ show_outcome (parse_outcome t));
+         print_endline ("OUTSTR " ^ show_outcome (parse_string_outcome t))
+       | ["ERS"; x] ->
+         let t = text_of_x x in
+         (match build_ers t with
+          | None -> print_endline "ERS ~"; print_endline "ERSVAL ~"; print_endline "ASM ~"
+          | Some (((p, e), neg), ok) ->
+            print_endline (Printf.sprintf "ERS %s %s %d %d" (x_of_text p) (hex_of_z e) (if neg then 1 else 0) (if ok then 1 else 0));
+            (match ers_value (((p, e), neg), ok) with
+             | None -> print_endline "ERSVAL ~"
+             | Some q -> print_endline ("ERSVAL " ^ hex_of_z q.qnum ^ " " ^ hex_of_pos q.qden));
+            print_endline ("ASM " ^ x_of_text (utils_assemble p e neg)))
+       | ["WITHIN"; bits; sn; sd; wn; wd] ->
+         print_endline ("WITHIN " ^ (if within_precb (pos_of_dec bits) (q_of_dec sn sd) (q_of_dec wn wd) then "1" else "0"))
+       | ["STORE"; mb; bits; wn; wd] ->
+         let w = q_of_dec wn wd in
+         let s = trunc_bits (pos_of_dec mb) w in
+         print_endline ("STORE " ^ hex_of_z s.qnum ^ " " ^ hex_of_pos s.qden ^ " " ^
+                        (if within_precb (pos_of_dec bits) s w then "1" else "0"))
        | ["TEXT"; x] ->
          let t = text_of_x x in
          print_endline ("PARSE " ^ show_result (parse t));
